@@ -88,7 +88,10 @@ def term_toks(rnd, t):
     i = 0
     while i < len(body):
         if body[i] == '"':
-            j = body.index('"', i + 1)
+            j, esc = i + 1, False            # closing quote = first quote not preceded by an (unescaped) backslash
+            while j < len(body) and (body[j] != '"' or esc):
+                esc = (not esc) and body[j] == '\\'
+                j += 1
             toks.append(body[i:j + 1])
             i = j + 1
         else:
@@ -304,7 +307,10 @@ def describe(case):
 # ------------------------------------------------------------------------------------------------
 # generators
 # ------------------------------------------------------------------------------------------------
-TERMS = [b'a', b'foo', b'_x', b'p(1)', b'q("a b",2)', b'r(f(x),y)', b'"str"', b'"  a b"', b'" "', b'"a\\"b"', b'f("(,",x)', b'aB_9', b'f(-1)', b'g(X,_y)', b'""']
+TERMS = [b'a', b'foo', b'_x', b'p(1)', b'q("a b",2)', b'r(f(x),y)', b'"str"', b'"  a b"', b'" "', b'"a\\"b"', b'f("(,",x)', b'aB_9', b'f(-1)', b'g(X,_y)', b'""',
+         # escape-state boundaries of the string scanner: escaped backslashes directly before the closing quote, runs of backslashes,
+         # escaped quote after an escaped backslash (seeded change C10-r3 was missed without these)
+         b'"c:\\\\"', b'"\\\\"', b'"a\\\\\\\\"', b'"x\\\\\\"y"', b'f("p\\\\",q)', b'g("\\\\","\\"")', b'"\\\\ "']
 
 
 def g_atom(rnd):
